@@ -2,12 +2,23 @@
 #define VERIF_SUNMATRIX_CUSPARSE_H
 #include <verif_cuda.h>
 #include <sunmatrix/sunmatrix_sparse.h>
+#include <map>
+/* block CSR: nblocks blocks share one (M+1 row pointers, nnz column indices) pattern; data = nblocks * nnz values */
+inline std::map<SUNMatrix, int> &verif_cusparse_blocks() { static std::map<SUNMatrix, int> m; return m; }
 static inline SUNMatrix SUNMatrix_cuSparse_NewBlockCSR(int nblocks, int M, int N, int nnz, cusparseHandle_t, SUNContext ctx) {
     SUNMatrix A = SUNSparseMatrix(M, N, (sunindextype)nnz * nblocks, CSR_MAT, ctx);
+    verif_cusparse_blocks()[A] = nblocks;
     return A;
 }
+static inline int SUNMatrix_cuSparse_NumBlocks(SUNMatrix A) { auto it = verif_cusparse_blocks().find(A); return it == verif_cusparse_blocks().end() ? 1 : it->second; }
+static inline int SUNMatrix_cuSparse_BlockNNZ(SUNMatrix A) { return (int)(A->nnz_ / SUNMatrix_cuSparse_NumBlocks(A)); }
 static inline int SUNMatrix_cuSparse_SetFixedPattern(SUNMatrix, int) { return 0; }
-static inline int SUNMatrix_cuSparse_CopyToDevice(SUNMatrix, realtype *, int *, int *) { return 0; }
+static inline int SUNMatrix_cuSparse_CopyToDevice(SUNMatrix A, realtype *h_data, int *h_idxptrs, int *h_idxvals) {
+    int bnnz = SUNMatrix_cuSparse_BlockNNZ(A);
+    if (h_data) memcpy(A->data, h_data, sizeof(realtype) * (size_t)A->nnz_);
+    if (h_idxptrs) for (sunindextype i = 0; i < A->NP + 1; i++) A->indexptrs[i] = h_idxptrs[i];
+    if (h_idxvals) for (int i = 0; i < bnnz; i++) A->indexvals[i] = h_idxvals[i];
+    return 0;
+}
 static inline realtype *SUNMatrix_cuSparse_Data(SUNMatrix A) { return A->data; }
-static inline int SUNMatrix_cuSparse_NumBlocks(SUNMatrix) { return 1; }
 #endif
